@@ -146,9 +146,65 @@ def with_values(a, val):
     return rows.reshape(shape)
 
 
-def logical(role, kind, nd, val="ord"):
+LARGE_BYTES = 2 ** 25
+UNIQUE_ROLES = ("ids", "ids2", "ascending")      # roles whose large form must not repeat values
+
+
+def large_n(itemsize):
+    """elements of a large argument: just over 2^25 bytes (at least 2^21 elements)"""
+    return max(LARGE_BYTES // itemsize, 2 ** 21) + 1
+
+
+def _enlarge(a, role):
+    """the 1-d small array a repeated up to the large size (distinct values for the roles that need them)"""
+    n = large_n(a.dtype.itemsize)
+    big = np.resize(a, n)
+    if a.dtype.names is not None:
+        if "id" in a.dtype.names:
+            big["id"] = np.arange(1, n + 1)
+    elif role in UNIQUE_ROLES and a.dtype.kind in "iuf":
+        j = np.arange(n)
+        big = ({"ids": 3 * j[::-1] + 1, "ids2": 2 * j, "ascending": j}[role]).astype(a.dtype)
+    return big
+
+
+def logical(role, kind, nd, val="ord", size="small"):
     """native, C-contiguous array holding values of class val for the role"""
-    return with_values(_logical(role, kind, nd), val)
+    a = _logical(role, kind, nd)
+    if size == "large":
+        if a.ndim != 1 or role in FIXED_SHAPE:
+            raise MachineryError("large arguments are 1-d")
+        a = _enlarge(a, role)
+    if val == "short":
+        if a.ndim != 1:
+            raise MachineryError("short arguments are 1-d")
+        return a[:-1].copy()
+    return with_values(a, val)
+
+
+# ---- exotic element kinds (Frame.tla EXO): the VALUES are not exactly convertible to float64 and back
+EXOTIC = ("g", "u8", "I8", "f2", "c16", "O")
+
+
+def _exotic(fl, it, kind):
+    import fractions
+    ints = [int(round(v)) for v in (it if it is not None else fl)]
+    eps = np.longdouble(2) ** -60
+    inexact = [np.longdouble(v) * (1 + eps) if v else np.longdouble(2) ** -70 for v in fl]
+    if kind == "g":
+        return np.array(inexact, dtype=np.longdouble)
+    if kind == "u8":
+        return np.array([2 ** 63 + 2049 + 2 * abs(v) for v in ints], dtype="u8")
+    if kind == "I8":
+        return np.array([2 ** 53 + 1 + 2 * abs(v) for v in ints], dtype="i8")
+    if kind == "f2":
+        return np.array(fl, dtype="f2")
+    if kind == "c16":
+        return np.array([complex(v, 0.5 + v / 7.0) for v in fl], dtype="c16")
+    out = np.empty(len(fl), dtype=object)
+    for j, v in enumerate(fl):
+        out[j] = (float(v), inexact[j], fractions.Fraction(v) + fractions.Fraction(1, 3 ** 40))[j % 3]
+    return out
 
 
 def _logical(role, kind, nd):
@@ -171,6 +227,8 @@ def _logical(role, kind, nd):
         vals = {"ids": STR_VALUES, "ids2": STR_VALUES2, "dups": STR_DUPS}.get(role, STR_VALUES)
         return np.array(vals[:n], dtype="S2").reshape(shape)
     fl, it = ROLE_VALUES[role]
+    if kind in EXOTIC:
+        return _exotic(fl[:n], it[:n] if it is not None else None, kind).reshape(shape)
     vals = fl if (kind in ("f8", "f4") or it is None) else it
     if kind == "u1":
         vals = [abs(int(v)) for v in vals]
@@ -215,9 +273,15 @@ def _dg(b):
     return hashlib.blake2b(b, digest_size=6).hexdigest()
 
 
+def _bytes_of(x):
+    if x.dtype.kind == "O":          # the elements themselves (type and value), not their addresses
+        return repr([(type(e).__name__, repr(e)) for e in x.ravel().tolist()]).encode()
+    return x.tobytes()
+
+
 def snapshot(x):
     f = x.flags
-    return {"data": _dg(x.tobytes()), "base": _dg(_root(x).tobytes()),
+    return {"data": _dg(_bytes_of(x)), "base": _dg(_bytes_of(_root(x))),
             "dtype": "%s|%s" % (x.dtype.str, x.dtype.descr),
             "flags": "C%dF%dW%dA%dO%d|%s|%s" % (f.c_contiguous, f.f_contiguous, f.writeable, f.aligned, f.owndata,
                                                x.strides, x.shape)}
@@ -312,6 +376,10 @@ def bind(name, opt, A, tmp):
         data = A["data"]
 
         def f():
+            if opt == "reject_closed":
+                sf = sfile.SFile(fam_path, mode="w")
+                sf.close()
+                return sf.write(data)               # documented: the file must be open for writing
             if "rplus" in parts:
                 sfile.write(logical("table", "tbl", 1), fam_path, **kw)
                 with sfile.SFile(fam_path, mode="r+", **kw) as sf:
@@ -331,6 +399,10 @@ def bind(name, opt, A, tmp):
         data = A["data"]
 
         def f():
+            if opt == "reject_closed":
+                r = recfile.Recfile(fam_path, mode="w")
+                r.close()
+                return r.write(data)                # ValueError: You have not yet opened a file
             if name == "recfile.write":
                 if "append" in parts:
                     recfile.write(fam_path, logical("table", "tbl", 1), **kw)
@@ -344,7 +416,7 @@ def bind(name, opt, A, tmp):
 
     # ---- field operations ----------------------------------------------------------------------
     if name == "numpy_util.extract_fields":
-        names = {"one": ["x"], "two": ["s", "id"], "sub_array_field": ["v", "n"], "nonstrict": ["x", "nosuch"]}[opt]
+        names = {"one": ["x"], "two": ["s", "id"], "sub_array_field": ["v", "n"], "nonstrict": ["x", "nosuch"], "reject_missing": ["x", "nosuch"]}[opt]
         return lambda: nu.extract_fields(A["arr"], names, strict=(opt != "nonstrict"))
     if name == "numpy_util.remove_fields":
         names = {"one": ["x"], "two": ["s", "v"], "scalar_name": "f"}[opt]
@@ -356,7 +428,7 @@ def bind(name, opt, A, tmp):
             return lambda: nu.add_fields(A["arr"], np.dtype([("new1", ">i4")]))
         return lambda: nu.add_fields(A["arr"], [("new1", "f8"), ("new2", "i4")], defaults=[-9999.0, 7])
     if name == "numpy_util.reorder_fields":
-        names = {"front": ["s", "x"], "all": ["v", "s", "b", "h", "n", "f", "x", "id"], "nonstrict": ["nosuch", "x"]}[opt]
+        names = {"front": ["s", "x"], "all": ["v", "s", "b", "h", "n", "f", "x", "id"], "nonstrict": ["nosuch", "x"], "reject_missing": ["nosuch", "x"]}[opt]
         return lambda: nu.reorder_fields(A["arr"], names, strict=(opt != "nonstrict"))
     if name == "numpy_util.combine_fields":
         return (lambda: nu.combine_fields([A["arr1"], A["arr2"]])) if opt == "two" else (lambda: nu.combine_fields([A["arr1"]]))
@@ -368,6 +440,8 @@ def bind(name, opt, A, tmp):
             return lambda: fn(A["data"])
         if opt == "some":
             return lambda: fn(A["data"], fields=["x", "v"])
+        if opt == "reject_missing":
+            return lambda: fn(A["data"], fields=["x", "nosuch"])
         return lambda: fn(A["data"], fields=["s"], getnames=True)
     if name == "numpy_util.copy_fields_by_name":
         if opt == "one":
@@ -398,7 +472,7 @@ def bind(name, opt, A, tmp):
     # ---- histograms ---------------------------------------------------------------------------------
     hkw = {"binsize": dict(binsize=1.0), "nbin": dict(nbin=3), "nperbin": dict(nperbin=2), "binsize_rev": dict(binsize=0.5, rev=True),
            "nbin_minmax": dict(nbin=2, min=0.5, max=3.0), "more": dict(binsize=1.0, more=True),
-           "nperbin_nomerge": dict(nperbin=4, mergelast=False)}
+           "nperbin_nomerge": dict(nperbin=4, mergelast=False), "reject_nodata": dict(nbin=3, min=1000.0, max=2000.0)}
     if name == "stat.histogram":
         return lambda: stat.histogram(A["data"], **hkw[opt])
     if name == "stat.histogram+weights":
@@ -410,7 +484,8 @@ def bind(name, opt, A, tmp):
             b.calc_stats()
             return b
         return f
-    h2 = {"nx_ny": dict(nx=2, ny=3), "xbin_ybin": dict(xbin=1.0, ybin=1.0), "rev": dict(nx=2, ny=2, rev=True), "more": dict(nx=2, ny=2, more=True)}
+    h2 = {"nx_ny": dict(nx=2, ny=3), "xbin_ybin": dict(xbin=1.0, ybin=1.0), "rev": dict(nx=2, ny=2, rev=True), "more": dict(nx=2, ny=2, more=True),
+          "reject_nodata": dict(nx=2, ny=2, xmin=1000.0, xmax=2000.0)}
     if name == "stat.histogram2d":
         return lambda: stat.histogram2d(A["x"], A["y"], **h2[opt])
     if name == "stat.histogram2d+z+weights":
@@ -450,13 +525,13 @@ def bind(name, opt, A, tmp):
     if name == "coords.euler":
         return lambda: coords.euler(A["ai"], A["bi"], int(opt[-1]))
     if name == "coords.eq2xyz":
-        kw = {"deg": {}, "rad": dict(units="rad"), "stomp": dict(stomp=True)}[opt]
+        kw = {"deg": {}, "rad": dict(units="rad"), "stomp": dict(stomp=True), "reject_units": dict(units="furlong")}[opt]
         return lambda: coords.eq2xyz(A["ra"], A["dec"], **kw)
     if name == "coords.xyz2eq":
-        kw = {"deg": {}, "rad": dict(units="rad"), "stomp": dict(stomp=True)}[opt]
+        kw = {"deg": {}, "rad": dict(units="rad"), "stomp": dict(stomp=True), "reject_units": dict(units="furlong")}[opt]
         return lambda: coords.xyz2eq(A["x"], A["y"], A["z"], **kw)
     if name == "coords.sphdist":
-        return lambda: coords.sphdist(A["ra1"], A["dec1"], A["ra2"], A["dec2"], units=opt.split("_"))
+        return lambda: coords.sphdist(A["ra1"], A["dec1"], A["ra2"], A["dec2"], units=(["furlong", "deg"] if opt == "reject_units" else opt.split("_")))
     if name == "coords.gcirc":
         return lambda: coords.gcirc(A["ra1"], A["dec1"], A["ra2"], A["dec2"], getangle=(opt == "getangle"))
     if name == "coords.eq2sdss":
@@ -556,9 +631,9 @@ def build_args(case):
             ids = _htm(BINCOUNT_DEPTH).lookup_id(np.array(ROLE_VALUES["lon"][0]), np.array(ROLE_VALUES["lat"][0]))
             base = ids.astype(kind).reshape(SHAPES[nd])
         elif kind == "tbl" and prm["role"] not in ("table", "table2", "table_target"):
-            base = logical("table", "tbl", nd, prm.get("val", "ord"))           # byte-order conversion of a table
+            base = logical("table", "tbl", nd, prm.get("val", "ord"), prm.get("size", "small"))   # byte-order conversion of a table
         else:
-            base = logical(prm["role"], kind, nd, prm.get("val", "ord"))
+            base = logical(prm["role"], kind, nd, prm.get("val", "ord"), prm.get("size", "small"))
         A[prm["p"]] = apply_layout(base, lay)
     return A
 
@@ -617,7 +692,8 @@ def run_case(args):
     finally:
         shutil.rmtree(tmp, ignore_errors=True)
     return {"id": rid, "call": case["call"], "opt": case["opt"], "nd": case["nd"], "lay": [p["lay"] for p in case["params"]],
-            "val": [p.get("val", "ord") for p in case["params"]], "outcome": outcome, "err": err, "pre": pre, "post": post, "pnames": order}
+            "val": [p.get("val", "ord") for p in case["params"]], "size": [p.get("size", "small") for p in case["params"]],
+            "expect": case.get("expect", "any"), "outcome": outcome, "err": err, "pre": pre, "post": post, "pnames": order}
 
 
 # ---- judging -----------------------------------------------------------------------------------------
@@ -627,7 +703,7 @@ def layout_class(lay):
 
 def judge(ctx, recs, cases, what):
     rejects = tracecheck.validate(ctx, "FrameTrace.tla",
-                                  [{k: r[k] for k in ("id", "call", "opt", "nd", "lay", "val", "outcome", "pre", "post")} for r in recs], what=what)
+                                  [{k: r[k] for k in ("id", "call", "opt", "nd", "lay", "val", "size", "outcome", "pre", "post")} for r in recs], what=what)
     byid = {r["id"]: r for r in recs}
     for rid in sorted(rejects):
         r = byid[rid]
@@ -635,11 +711,12 @@ def judge(ctx, recs, cases, what):
             i, whatch = item.split(":", 1)
             i = int(i)
             if whatch == "not_in_catalogue":
-                raise MachineryError("recorded invocation is not a point of the catalogue: %s" % {k: r[k] for k in ("call", "opt", "nd", "lay", "val")})
+                raise MachineryError("recorded invocation is not a point of the catalogue: %s" % {k: r[k] for k in ("call", "opt", "nd", "lay", "val", "size")})
             pname = r["pnames"][i - 1]
             ctx.violation("%s|%s|%s|%s" % (r["call"], pname, whatch, layout_class(r["lay"][i - 1])),
-                          "%s (option %s) changed the %s of its argument %r (layout %s, %d-d, value classes of the arguments %s; call %s%s)"
-                          % (r["call"], r["opt"], whatch, pname, r["lay"][i - 1], r["nd"], dict(zip(r["pnames"], r["val"])), r["outcome"],
+                          "%s (option %s) changed the %s of its argument %r (layout %s, %d-d, value classes %s and sizes %s of the arguments; call %s%s)"
+                          % (r["call"], r["opt"], whatch, pname, r["lay"][i - 1], r["nd"], dict(zip(r["pnames"], r["val"])),
+                             dict(zip(r["pnames"], r["size"])), r["outcome"],
                              " " + r["err"] if r["err"] else ""),
                           {"kind": "invocation", "case": cases[rid], "changed": whatch, "param": pname})
     return rejects
@@ -685,7 +762,13 @@ def run(ctx):
     try:
         # warm the objects that are shared by the forked workers
         import esutil  # noqa
-        recs = pmap(run_case, jobs)
+        is_large = lambda c: any(p.get("size") == "large" for p in c["params"])   # noqa
+        small = [j for j in jobs if not is_large(j[1])]
+        large = [j for j in jobs if is_large(j[1])]
+        recs = pmap(run_case, small)
+        # the large invocations one by one over fewer processes (each holds a few buffers of 32 - 64 MiB)
+        recs += pmap(run_case, large, nproc=8, chunk=1)
+        recs.sort(key=lambda r_: r_["id"])
     finally:
         shutil.rmtree(_TMP, ignore_errors=True)
     # vacuity: every catalogue entry must have completed normally at least once (else the binding is wrong)
@@ -695,14 +778,27 @@ def run(ctx):
         completed[rec["call"]][0 if rec["outcome"] == "returned" else 1] += 1
         if rec["outcome"] == "raised" and not completed[rec["call"]][2]:
             completed[rec["call"]][2] = rec["err"]
+    # the deliberate rejections (Frame.tla FrExpectReject) are meant to end in an exception: say how many did, and insist that the
+    # dimension is not empty (the verdict does not depend on it: the statement does not say when a call must raise)
+    delib = [rec for rec in recs if rec["expect"] == "reject"]
+    delib_raised = sum(1 for rec in delib if rec["outcome"] == "raised")
+    nlarge = sum(1 for rec in recs if "large" in rec["size"])
+    nlarge_raised = sum(1 for rec in recs if "large" in rec["size"] and rec["outcome"] == "raised")
+    if not delib_raised or not nlarge or not nlarge_raised:
+        raise MachineryError("vacuity: %d deliberate rejections raised, %d large invocations, %d of them raised"
+                             % (delib_raised, nlarge, nlarge_raised))
+    ctx.note(deliberate_rejections=len(delib), deliberate_rejections_raised=delib_raised,
+             deliberate_rejections_that_returned=sorted({"%s|%s" % (rec["call"], rec["opt"]) for rec in delib if rec["outcome"] != "raised"})[:40],
+             large_invocations=nlarge, large_invocations_raised=nlarge_raised,
+             exotic_kind_invocations=sum(1 for rec in recs if any(l["kind"] in EXOTIC for l in rec["lay"])))
     never = sorted(k for k, v in completed.items() if v[0] == 0)
     if never:
         raise MachineryError("catalogue entries that never completed normally (binding wrong?): %s" %
                              [(k, completed[k][2]) for k in never])
     for rec in recs:
-        ctx.count({"call": rec["call"], "opt": rec["opt"], "nd": rec["nd"], "lay": rec["lay"], "val": rec["val"]})
+        ctx.count({"call": rec["call"], "opt": rec["opt"], "nd": rec["nd"], "lay": rec["lay"], "val": rec["val"], "size": rec["size"]})
     for rec in recs[:: max(1, len(recs) // 4)][:4]:
-        ctx.sample({"call": rec["call"], "opt": rec["opt"], "nd": rec["nd"], "layouts": rec["lay"], "values": rec["val"], "outcome": rec["outcome"],
+        ctx.sample({"call": rec["call"], "opt": rec["opt"], "nd": rec["nd"], "layouts": rec["lay"], "values": rec["val"], "sizes": rec["size"], "outcome": rec["outcome"],
                     "before": rec["pre"], "after": rec["post"]})
     chunk = 40000
     rejected = set()
@@ -741,7 +837,7 @@ def run(ctx):
 def selftest(ctx, good):
     import copy
     base = next(r for r in good if len(r["pre"]) >= 2)
-    keys = ("id", "call", "opt", "nd", "lay", "val", "outcome", "pre", "post")
+    keys = ("id", "call", "opt", "nd", "lay", "val", "size", "outcome", "pre", "post")
     a = copy.deepcopy({k: base[k] for k in keys}); a["id"] = 1; a["post"][1]["data"] = "0" * 12
     b = copy.deepcopy({k: base[k] for k in keys}); b["id"] = 2; b["post"][0]["dtype"] = ">f8|swapped"
     c = copy.deepcopy({k: base[k] for k in keys}); c["id"] = 3; c["post"][0]["flags"] = "C0F0W1A1O0|(-8,)|(6,)"
@@ -766,7 +862,7 @@ def selftest(ctx, good):
     finally:
         shutil.rmtree(_TMP, ignore_errors=True)
     rec = {"id": 1, "call": case["call"], "opt": case["opt"], "nd": 1, "lay": [p["lay"] for p in case["params"]],
-           "val": ["ord", "ord"], "outcome": "returned", "pre": pre, "post": post}
+           "val": ["ord", "ord"], "size": ["small", "small"], "outcome": "returned", "pre": pre, "post": post}
     saved = ctx.traces
     rej = tracecheck.validate(ctx, "FrameTrace.tla", [rec], what="self-test: flipped base-buffer byte rejected", workers=1)
     ctx.traces = saved
